@@ -3582,7 +3582,9 @@ def facade_items(repo):
             for fm in re.finditer(r'\bfn\s+([a-z_0-9]+)\s*[<(]', blk):
                 out.append({'file': f, 'fn': fm.group(1), 'lean': '%s_%s_%s' % (pfx, tag, fm.group(1)),
                             'key': 'Facade::%s::%s::%s' % (pfx, tag, fm.group(1)), 'after': hdr, 'uint': True, 'self_ty': 'uint',
-                            'group': 'facade', 'externs': UINT_EXTERNS, 'optional': True})
+                            'group': 'facade', 'externs': UINT_EXTERNS, 'optional': True,
+                            # `<Self>::shl(self, n as usize)`: the `Shl<usize>` operator impl (the generated `@main` arm)
+                            'call_alias': {'shl': 'Uint::shl_usize', 'shr': 'Uint::shr_usize'}})
     return out
 
 
